@@ -215,6 +215,16 @@ fn container_check<K: Kmer>(c: &CCase) -> CheckResult {
         return Err("DnaString::rc is not == to the string built from the reverse-complemented bases".into());
     }
     check_container::<K, _>("DnaString.rc()", &dsrc, &r, c.bexts)?;
+    {
+        // the same string built through the Vmer constructor (blank + set_mut) is the same value, and rc is an involution on it
+        let dv = <DnaString as Vmer>::from_slice(m);
+        if dv != ds || dv.rc() != dsrc || dv.rc().rc() != dv {
+            return Err(format!(
+                "DnaString built by Vmer::from_slice (length {}): not == to from_bytes of the same bases, or rc(rc(x)) != x",
+                n
+            ));
+        }
+    }
     // slices
     let (lf, rf) = (c.lflank as usize, c.rflank as usize);
     let mut backing: Seq = (0..lf).map(|i| ((i * 3 + 1) % 4) as u8).collect();
